@@ -42,7 +42,11 @@ var (
 
 const c04tail = "_${X}_$$Y_\\$Z"
 
+// c04lookalikes: values whose single-pass expansion spells a boolean, number or null (variables in c04envMap)
+var c04lookalikes = []string{"${BT}", "$BF", "${ONE}", "$ZERO", "${NUL}", "${TEE}", "$TIL", "${FLT}", "${YES}", "${NOPE:-false}", "$$BT"}
+
 type c04inst struct {
+	lookalike bool   // values (not keys, not plugin sources) become c04lookalikes in turn instead of unique markers
 	probe     string // id of the position that gets a failing expansion instead ("" = none)
 	next      int
 	positions []string // marker ids in order
@@ -64,6 +68,14 @@ func (st *c04inst) marker(path string, plugin bool) string {
 	return id + tail
 }
 
+func (st *c04inst) value(path string, plugin bool) string {
+	if st.lookalike && !plugin {
+		st.next++
+		return c04lookalikes[st.next%len(c04lookalikes)]
+	}
+	return st.marker(path, plugin)
+}
+
 // c04instrument rewrites every string of the document (in place) into a marker.
 func c04instrument(n *docgen.N, path string, st *c04inst, seen map[*docgen.N]bool) {
 	if n.AliasOf != nil {
@@ -78,7 +90,7 @@ func c04instrument(n *docgen.N, path string, st *c04inst, seen map[*docgen.N]boo
 		if strings.HasSuffix(path, ".type") || c04stepItem.MatchString(path) {
 			return // step kind selectors keep their meaning
 		}
-		n.S = st.marker(path, c04pluginsItem.MatchString(path))
+		n.S = st.value(path, c04pluginsItem.MatchString(path))
 	case docgen.KSeq:
 		for i, it := range n.Items {
 			c04instrument(it, fmt.Sprintf("%s[%d]", path, i), st, seen)
@@ -101,7 +113,7 @@ func c04instrument(n *docgen.N, path string, st *c04inst, seen map[*docgen.N]boo
 	}
 }
 
-var c04envMap = map[string]string{"X": "xv", "Y": "yv", "Z": "zv"}
+var c04envMap = map[string]string{"X": "xv", "Y": "yv", "Z": "zv", "BT": "true", "BF": "false", "ONE": "1", "ZERO": "0", "NUL": "null", "TEE": "t", "TIL": "~", "FLT": "1.5", "YES": "yes"}
 
 // c04expected maps every key and value string of the generic JSON tree
 // through the single-pass expansion, except under `signature`.
@@ -300,6 +312,26 @@ func c04doc(w *report.W, label string, in *docgen.N, presentation string, seamBo
 		o := c04once(ptext, nil)
 		w.Obs(fmt.Sprintf("probe sig=%v result=%s", strings.Contains(st.where[id], ".signature"), o.kind))
 		rec(o, c04case{Label: label, Text: ptext, Probe: st.where[id]}, len(text)/40+1)
+	}
+	// the same document with every string value replaced by one whose expansion spells a boolean, a number or null:
+	// interpolation maps strings to strings, whatever they spell
+	{
+		doc := in.Clone()
+		lst := &c04inst{where: map[string]string{}, lookalike: true}
+		c04instrument(doc, "$", lst, map[*docgen.N]bool{})
+		if ltext, err := docgen.Render(doc, presentation); err == nil {
+			w.P.Evaluations++
+			o := c04onceOrd(ltext, nil, true)
+			if o.kind != "harness" { // (a look-alike in a position that selects a step kind can make the document unparsable: skipped)
+				w.Obs("lookalike result=" + o.kind)
+				if o.kind != "" {
+					o.kind = "lookalike-" + o.kind
+				}
+				rec(o, c04case{Label: label + " [look-alike values]", Text: ltext}, len(ltext)/40+2)
+			} else {
+				w.Count("lookalike_documents_unparsable", 1)
+			}
+		}
 	}
 	// seam: all explored iteration orders / revisit answers. Maps of <=3 entries are fully open; if that
 	// multiplies to more than the cap for this document, the run is repeated with <=2, then with every loop
@@ -580,7 +612,7 @@ func init() {
 		Rule: "every string (keys and values) of every generated pipeline document (choice explorer, <=d deviations, all step kinds and shorthands), of three hand-written base documents, of a document " +
 			"whose subtrees are shared through YAML aliases and of a document with 11-entry maps is replaced by a unique marker `sNNN_${X}_$$Y_\\$Z`; Pipeline.Interpolate on the real code is compared with " +
 			"the single-pass expansion mapped over the generic JSON tree of the pipeline before the call (everything but `signature`), order included; a failing expansion `${U?boom}` is injected at every " +
-			"position in turn (must be reported, except inside signatures); the run is repeated under the map-iteration seam: every order and every renamed-key-revisited answer for maps <=3 entries, " +
+			"position in turn (must be reported, except inside signatures); every document is run once more with each string value replaced by one whose expansion spells a boolean / number / null (`${BT}` -> true, `$ONE` -> 1, `${NUL}` -> null ...: must stay strings); the run is repeated under the map-iteration seam: every order and every renamed-key-revisited answer for maps <=3 entries, " +
 			"<=k deviations beyond. Repeated text: every 2-entry env block over 5 names x 9 values (incl. empty and set-versus-unset sensitive ones) x 4 caller envs x the precedence flag followed by command steps whose text repeats each block name and value: " +
 			"every step string is expanded once under the final environment (C10's reference fold). Non-trivial = more than three instrumented positions.",
 		Assumptions: []string{
